@@ -121,7 +121,7 @@ def run(ctx):
                 what="a stored time level does not satisfy the implicit update built from the previous level "
                      "(relative residual of the model's step system above rounding level)",
                 key="residual", input=rescorr.replay_payload(cases[k]), observed=dict(max_relative_residual=resid)))
-        elif not d_field <= field_tol(cases[k]):
+        elif cases[k].get("table_kind") != "random" and not d_field <= field_tol(cases[k]):
             ctx.violations.append(dict(what="stored field differs from the model's exact (Thomas) update sequence",
                                        key="field", input=rescorr.replay_payload(cases[k]), observed=dict(max_abs_diff=d_field)))
     probes(ctx, [c for c in cases if c["kind"] == "single"][:3] + [c for c in cases if c["kind"] == "ideal"][:3])
